@@ -33,7 +33,8 @@ CLAIMS = {
         category="proof",
         text="Every raw access in every memory arm is guarded on its path by inbounds(addr, n) for exactly its address and width; "
              "refusal paths return Err with no store; the bounds-check function's Ok condition equals no-wrap and containment in "
-             "mbuff/mem/stack or a registered range (exists-quantified); raw primitives occur only in the interpreter.",
+             "mbuff/mem/stack or a registered range (exists-quantified); raw primitives occur only in the interpreter."
+             " Every bounds check is handed the four regions themselves and register_allowed_memory stores the caller's range unchanged (R02.g).",
         note=TRUST + "validity of slices and registered ranges is the caller's contract.",
         technique="THIR symbolic summaries with path conditions; predicate extraction of the bounds check",
         design="5/C02"),
@@ -41,7 +42,8 @@ CLAIMS = {
         category="proof",
         text="Bit-lane provenance: every bit of Insn::to_array / to_vec / builder into_bytes is shown to be the layout table's "
              "source bit, and every field decoded by get_insn the inverse lane at byte offset 8*idx; exact lanes make the round trip "
-             "hold for all 2^64 slot values.",
+             "hold for all 2^64 slot values."
+             " Builder opcode algebra: every constructor x enum-argument combination yields the ISA opcode (R17.d).",
         note=TRUST + "byteorder little-endian reads are modelled as byte lanes; register numbers 0-15; the builder's opcode algebra "
              "per constructor is not yet compared with the assembler's opcode table.",
         technique="bit-lane provenance over THIR symbolic terms",
@@ -82,7 +84,8 @@ CLAIMS = {
         text="In every memory opcode's translation each load/store/atomic_rmw is immediately guarded by trapz(p) where p, as a "
              "term, equals the reference predicate no-wrap & (stack | mem&has_mem | mbuf&has_mbuf) for the same start = base+sext(off) "
              "and the access's own byte width; raw memory builder calls occur only in the three guarded wrappers; the prelude binds the "
-             "region variables to (param, param+len) and the 512-byte stack slot.",
+             "region variables to (param, param+len) and the 512-byte stack slot."
+             " Memory operations carry plain MemFlags only (R11.m).",
         note=TRUST + "that a Cranelift trap aborts before the guarded access is Cranelift's contract.",
         technique="replay of Cranelift IR builder calls to terms; predicate equality with a reference normal form",
         design="5/C11"),
@@ -123,7 +126,8 @@ CLAIMS = {
         text="Per engine, from the call arm's summary: key imm as u32, arguments (r1..r5) in order, result in r0, one call per path, "
              "unknown id -> Err (run time / compile time), r6-r10 and the JIT's packet base preserved; x86 stack parity: prologue "
              "delta, per-local-call delta (0 mod 16) and call-site pushes give rsp = 0 (mod 16) at `call rax` at every depth."
-             " Cranelift symbol names agree between registration and import declaration (R08.k); the JIT's lookup key is imm as u32.",
+             " Cranelift symbol names agree between registration and import declaration (R08.k); the JIT's lookup key is imm as u32."
+             " register_helper files the function under the given key on every VM kind (R08.r).",
         note=TRUST + "SysV AMD64 ABI facts (argument registers, callee-saved set) are the reference; Cranelift's own ABI lowering trusted.",
         technique="THIR symbolic summaries + x86 byte-template decoding with stack-depth accounting + Cranelift IR replay",
         design="5/C08"),
@@ -133,7 +137,8 @@ CLAIMS = {
              "r1 source, r10 = top of a 512-byte area, packet base register, the two fixed-mbuff pointer stores (parametric in the "
              "offsets), epilogue mirrors prologue; wrappers' flags, null-for-empty-packet and argument order; buffer-length closure == "
              "max(x,y)+8; interpreter/Cranelift wrappers' little-endian pointer writes; Cranelift prelude region variables and r1 select."
-             " Both pointer stores happen on every path that runs the program, in the interpreter and Cranelift wrappers (symbolic evaluation).",
+             " Both pointer stores happen on every path that runs the program, in the interpreter and Cranelift wrappers (symbolic evaluation)."
+             " The fixed-mbuff constructor stores the offsets as given and a zeroed buffer (R09.n).",
         note=TRUST + "interpreter r1/r10 initialisation is checked under C01/R01.f; overlapping offsets excluded by the statement.",
         technique="x86 byte-template decoding of the JIT prologue + structural rules over wrapper THIR + Cranelift prelude replay",
         design="5/C09"),
@@ -152,7 +157,8 @@ CLAIMS = {
         text="Panic inventory of the x86-64 JIT and of the Cranelift compiler with assume-guarantee rows; two-pass sizing passes "
              "identical arguments; raw code-buffer writes only behind the emit assert / in fix-up; terminator opcodes have their "
              "next block prepared; CFG targets only from verified offsets; no clock/RNG reachable (repeatability)."
-             " Emit predicate exact (R12.i); JIT fix-up targets are anchors, pc+1 or the interpreter's next-pc terms (R12.j).",
+             " Emit predicate exact (R12.i); JIT fix-up targets are anchors, pc+1 or the interpreter's next-pc terms (R12.j)."
+             " Compiler loops step over the second slot of a wide load (R12.k).",
         note=TRUST + "Cranelift's own code and IR verifier are trusted; code size < 2^31 assumed from the instruction limit.",
         technique="MIR abstract interpretation (panic inventory) + structural set rules over THIR summaries",
         design="5/C12"),
@@ -161,16 +167,18 @@ CLAIMS = {
         text="The assembler's mnemonic table, obtained by constant-folding make_instruction_map (92 entries), equals the reference "
              "table (name -> instruction type, size payload, base opcode); for all 14 instruction types x 20 operand shapes `encode` "
              "places each operand in the documented field with the documented source bit or returns Err; out-of-range register, "
-             "offset and immediate values reach Err; lddw emits the high half in a second slot; no bytes are produced on any Err path.",
+             "offset and immediate values reach Err; lddw emits the high half in a second slot; no bytes are produced on any Err path."
+             " Name resolution is decided by evaluating the assembler's own assemble_internal per documented mnemonic and shape and for undocumented names (R13.a, R13.u); numeric literal semantics (R13.g); the register parser backtracks where a mnemonic may follow (R13.h).",
         note=TRUST + "the combine parser's accepted language is trusted (grammar literals are checked structurally).",
-        technique="constant folding of the mnemonic table + THIR symbolic evaluation of encode per operand shape",
+        technique="THIR symbolic evaluation of the assembler (name resolution with constant folding of strings/maps, encode per operand shape)",
         design="5/C13"),
     "C16": dict(
         category="proof",
         text="Per opcode, symbolically in the instruction fields: the disassembler's rendered text (format pieces tied to the fields "
              "they print) tokenised with the assembler's operand grammar, looked up in the folded mnemonic table and pushed through "
              "`encode` yields the same opcode, the same used fields and zero unused fields; negative 32-bit immediates reach the "
-             "assembler's range error, never a different instruction; only atomic add and tail call have no assembler spelling.",
+             "assembler's range error, never a different instruction; only atomic add and tail call have no assembler spelling."
+             " Mnemonic and operands go through the assembler's own resolution (asmmodel.resolve); consecutive lines parse as separate instructions (R16.p).",
         note=TRUST + "alloc::fmt integer formatting and the combine parser's token language are trusted.",
         technique="THIR symbolic evaluation of renderer and encoder composed through a token-level grammar model",
         design="5/C16"),
@@ -187,7 +195,8 @@ CLAIMS = {
         category="proof",
         text="Panic inventory of every public helper under its pointer precondition; closed forms of gather_bytes (lane "
              "expression), sqrti (cast-sqrt-cast), memfrob (loop shape) and strcmp's null case. The numeric clauses (sqrt exactness "
-             "below 2^52, printf byte count, rand range) are NOT decided: no sound static argument in reach.",
+             "below 2^52, printf byte count, rand range) are NOT decided: no sound static argument in reach."
+             " strcmp's scan and absolute-difference result, rand's range reduction (R19.b).",
         note=TRUST + "f64 sqrt/log and std thread-locals trusted.",
         technique="MIR abstract interpretation + THIR symbolic closed forms",
         design="5/C19"),
